@@ -17,6 +17,7 @@ import (
 	"fmt"
 	"io"
 	"reflect"
+	"runtime/debug"
 	"sort"
 	"strconv"
 	"strings"
@@ -53,25 +54,33 @@ func init() {
 
 func bound(tier string) string {
 	thorough := tier == "thorough"
-	a := gens.Paths(false)
-	docsN := 3
-	if thorough {
-		docsN = 4
+	pl := newPlan(thorough)
+	nsmall := 0
+	for _, s := range pl.small {
+		if s {
+			nsmall++
+		}
 	}
-	docs := len(buildDocs(docsN))
-	s2 := len(singleTargets(a, false))
-	pt := len(pairTargets(a, thorough))
-	b := fmt.Sprintf("documents: gens.PathData(%d) as JSON (oj.JSON Sort) and SEN (sen.String Sort) text plus the descending-key-order text of every document with a "+
-		"multi-member object = %d document texts pairs; single targets: all %d paths of <= 2 fragments over gens.Paths(false) (%d fragments, filter only trailing) "+
-		"x entries oj.Match, oj.MatchString, oj.MatchLoad{whole,1-byte,every 2-split}, sen.Match, sen.MatchString, sen.MatchLoad{whole,1-byte,every 2-split}",
-		docsN, docs, s2, len(a.Frags))
+	n := 3
 	if thorough {
-		b += fmt.Sprintf("; plus all %d paths of 3 fragments that hold a descent or end in a filter x the same entries with chunkings {whole,1-byte}",
-			len(singleTargets(a, true))-s2)
+		n = 4
 	}
-	b += fmt.Sprintf("; target pairs: every ordered pair of distinct targets among the %d paths of <= 2 fragments over a thinned alphabet of %d fragments "+
-		"x entries as above with chunkings {whole,1-byte} (pairs in which neither target selects anything by the reference: oj.Match and sen.Match only)",
-		pt, len(pairFrags(a, thorough)))
+	b := fmt.Sprintf("documents: gens.PathData(%d) as JSON (= oj.JSON Sort) and SEN (= sen.String Sort) text plus the descending-key-order texts of every document with a "+
+		"multi-member object = %d text pairs; single targets: all %d paths of <= 2 fragments over gens.Paths(false) (%d fragments, a filter only as the last fragment) "+
+		"x oj.Match, oj.MatchString, oj.MatchLoad{whole, 1-byte, every 2-split}, sen.Match, sen.MatchString, sen.MatchLoad{whole, 1-byte, every 2-split}",
+		n, len(pl.docs), len(pl.singles), len(pl.a.Frags))
+	if thorough {
+		b += fmt.Sprintf("; all %d paths of 3 fragments that hold a descent or end in a filter x oj.Match, sen.Match (a failing case is re-run through every entry); "+
+			"the %d such paths over the thinned alphabet x every entry with chunkings {whole, 1-byte}", len(pl.threes), len(pl.thin3))
+	} else {
+		b += fmt.Sprintf(" (2-fragment targets on texts longer than %d bytes: chunkings {whole, 1-byte} only)", quickSplitLen)
+	}
+	b += fmt.Sprintf("; target pairs: every ordered pair of distinct targets among the %d paths of <= 2 fragments over a thinned alphabet of %d fragments on the %d texts of PathData(3)",
+		len(pl.pairsBig), len(pairFrags(pl.a, thorough)), nsmall)
+	if thorough {
+		b += fmt.Sprintf(" and among the %d paths over %d fragments on the other %d texts", len(pl.pairsSml), len(pairFrags(pl.a, false)), len(pl.docs)-nsmall)
+	}
+	b += " x every entry with chunkings {whole, 1-byte} (pairs in which neither target selects anything by the reference: oj.Match and sen.Match only)"
 	return b
 }
 
@@ -82,16 +91,27 @@ func isFilter(a *gens.PathAlphabet, i int) bool { return a.Class[i] == "filter" 
 // singleTargets lists the fragment index sequences of the single targets:
 // every sequence of <= 2 fragments; with three also the sequences of 3
 // fragments that hold a descent or end in a filter. A filter is only allowed
-// as the last fragment (the statement covers trailing filters only).
-func singleTargets(a *gens.PathAlphabet, three bool) [][]int {
+// as the last fragment (the statement covers trailing filters only). only
+// restricts the alphabet (nil: all fragments).
+func singleTargets(a *gens.PathAlphabet, three bool, only []int) [][]int {
 	var out [][]int
 	k := 2
 	if three {
 		k = 3
 	}
+	var allowed map[int]bool
+	if only != nil {
+		allowed = map[int]bool{}
+		for _, i := range only {
+			allowed[i] = true
+		}
+	}
 	a.EachPath(k, func(idx []int) bool {
 		desc := false
 		for j, i := range idx {
+			if allowed != nil && !allowed[i] {
+				return true
+			}
 			if isFilter(a, i) && j != len(idx)-1 {
 				return true
 			}
@@ -121,10 +141,13 @@ func pairFrags(a *gens.PathAlphabet, thorough bool) []int {
 	}
 	filters := []int{0, 2}
 	if thorough {
-		want = append(want, gens.JPChild("z"), gens.JPNth(-2), gens.JPNth(3),
-			gens.JPUnion("a"), gens.JPUnion(0), gens.JPUnion(-1, "a"), gens.JPUnion("x", 2, "a", 0), gens.JPUnion(5, "z"),
-			gens.JPSlice(-1), gens.JPSlice(0, -1), gens.JPSlice(0, gens.MaxEnd, 2), gens.JPSlice(0, gens.MaxEnd, -1), gens.JPSlice(5), gens.JPSlice(1, 2, 0))
-		filters = []int{0, 1, 2, 3, 4}
+		want = append(want, gens.JPNth(-2),
+			gens.JPUnion("a"), gens.JPUnion(0), gens.JPUnion(-1, "a"), gens.JPUnion("x", 2, "a", 0),
+			gens.JPSlice(-1), gens.JPSlice(0, -1), gens.JPSlice(0, gens.MaxEnd, 2), gens.JPSlice(0, gens.MaxEnd, -1))
+		filters = nil
+		for i := range gens.FilterScripts() {
+			filters = append(filters, i)
+		}
 	}
 	var out []int
 	nf := 0
@@ -178,6 +201,10 @@ func fragKind(f gens.JPFrag) string {
 				return "union-neg"
 			}
 		}
+	case "filter":
+		if usesRoot(f.F) {
+			return "filter-root" // the script has a $-rooted operand
+		}
 	case "slice":
 		if len(f.S) > 2 {
 			switch {
@@ -193,13 +220,36 @@ func fragKind(f gens.JPFrag) string {
 	return f.K
 }
 
+func usesRoot(n *scriptref.Node) bool {
+	if n == nil {
+		return false
+	}
+	if n.Path != nil {
+		if n.Path.Root {
+			return true
+		}
+		for _, st := range n.Path.Steps {
+			if usesRoot(st.Filter) {
+				return true
+			}
+		}
+	}
+	return usesRoot(n.L) || usesRoot(n.R)
+}
+
 func targetKind(x gens.JPExpr) string {
 	var parts []string
 	for _, f := range x {
 		if f.K == "root" {
 			continue
 		}
-		parts = append(parts, fragKind(f))
+		k := fragKind(f)
+		if k == "filter-root" {
+			// what $ means inside the script cannot depend on the fragments in
+			// front of the filter: one label for the whole family
+			return k
+		}
+		parts = append(parts, k)
 	}
 	if len(parts) == 0 {
 		return "root"
@@ -433,31 +483,41 @@ func (e execSpec) chunks(n int) []int {
 	return nil
 }
 
+// execItem is an execution with its label and chunk lengths precomputed.
+type execItem struct {
+	execSpec
+	lab string
+	cks []int
+}
+
 // execList lists the executions of a document text at a level:
 // 0 = the []byte entry only, 1 = all entries with whole and 1-byte chunking,
 // 2 = level 1 plus every 2-split.
-func (d *docInfo) execList(level int) []execSpec {
-	key := strconv.Itoa(level)
+func (d *docInfo) execList(level int) []execItem {
 	if d.execs == nil {
-		d.execs = map[string][]execSpec{}
+		d.execs = map[int][]execItem{}
 	}
-	if l, ok := d.execs[key]; ok {
+	if l, ok := d.execs[level]; ok {
 		return l
 	}
 	pkg := "oj."
 	if d.form == "sen" {
 		pkg = "sen."
 	}
-	l := []execSpec{{Entry: pkg + "Match"}}
+	specs := []execSpec{{Entry: pkg + "Match"}}
 	if level >= 1 {
-		l = append(l, execSpec{Entry: pkg + "MatchString"}, execSpec{Entry: pkg + "MatchLoad", Chunk: "whole"}, execSpec{Entry: pkg + "MatchLoad", Chunk: "bytes"})
+		specs = append(specs, execSpec{Entry: pkg + "MatchString"}, execSpec{Entry: pkg + "MatchLoad", Chunk: "whole"}, execSpec{Entry: pkg + "MatchLoad", Chunk: "bytes"})
 	}
 	if level >= 2 {
 		for k := 1; k < len(d.text); k++ {
-			l = append(l, execSpec{Entry: pkg + "MatchLoad", Chunk: "split", K: k})
+			specs = append(specs, execSpec{Entry: pkg + "MatchLoad", Chunk: "split", K: k})
 		}
 	}
-	d.execs[key] = l
+	l := make([]execItem, len(specs))
+	for i, e := range specs {
+		l[i] = execItem{execSpec: e, lab: e.label(), cks: e.chunks(len(d.text))}
+	}
+	d.execs[level] = l
 	return l
 }
 
@@ -503,6 +563,10 @@ type result struct {
 // runExec executes one entry point. The callback copies the path (the
 // handler reuses its slice) and the value as they are at the time of the call.
 func runExec(e execSpec, text string, chunks []int, targets []jp.Expr) (r result) {
+	return runExecData(e, text, []byte(text), chunks, targets)
+}
+
+func runExecData(e execSpec, text string, data []byte, chunks []int, targets []jp.Expr) (r result) {
 	onData := func(p jp.Expr, v any) {
 		cp := make(jp.Expr, len(p))
 		copy(cp, p)
@@ -519,18 +583,18 @@ func runExec(e execSpec, text string, chunks []int, targets []jp.Expr) (r result
 	}()
 	switch e.Entry {
 	case "oj.Match":
-		r.err = oj.Match([]byte(text), onData, targets...)
+		r.err = oj.Match(data, onData, targets...)
 	case "oj.MatchString":
 		r.err = oj.MatchString(text, onData, targets...)
 	case "oj.MatchLoad":
-		rd = &chunkReader{data: []byte(text), lens: chunks}
+		rd = &chunkReader{data: data, lens: chunks}
 		r.err = oj.MatchLoad(rd, onData, targets...)
 	case "sen.Match":
-		r.err = sen.Match([]byte(text), onData, targets...)
+		r.err = sen.Match(data, onData, targets...)
 	case "sen.MatchString":
 		r.err = sen.MatchString(text, onData, targets...)
 	case "sen.MatchLoad":
-		rd = &chunkReader{data: []byte(text), lens: chunks}
+		rd = &chunkReader{data: data, lens: chunks}
 		r.err = sen.MatchLoad(rd, onData, targets...)
 	default:
 		panic("c17: unknown entry " + e.Entry)
@@ -633,11 +697,49 @@ func sameObs(a, b *result) bool {
 	return true
 }
 
-const chunkDependent = "chunk-dependent"
+const (
+	chunkDependent = "chunk-dependent"
+	// objectFilter is the one discrepancy kind of the cases in which the
+	// implementation may walk a Go map (a filter target on a document with a
+	// multi-member object): what exactly goes wrong there can depend on the map
+	// iteration order, so such a failure is not classified further and a
+	// signature never depends on map order.
+	objectFilter = "object-filter"
+	// repetitions of the []byte entry made for such a case
+	ofReps       = 32
+	ofRepsCheap  = 4  // 3-fragment targets over the full alphabet
+	ofRepsShrink = 96 // while shrinking and replaying (few states, memoised)
+)
 
 // quickSplitLen: in the quick tier the 2-fragment targets get every 2-split
 // only on texts up to this length (1-fragment targets: on every text).
 const quickSplitLen = 24
+
+func orderCapable(di *docInfo, targets []gens.JPExpr) bool {
+	return di.multiKey && hasFilter(targets)
+}
+
+// repeated runs the []byte entry of the text n times and reports whether the
+// observations differ between the executions (varies) and whether some
+// execution does not give an accepted callback sequence (fails).
+func (w *worker) repeated(di *docInfo, xs []jp.Expr, seqs [][]*nodeInfo, n int) (varies, fails bool) {
+	ex := di.execList(0)[0]
+	var first *result
+	for i := 0; i < n; i++ {
+		r := runExecData(ex.execSpec, di.text, di.data, ex.cks, xs)
+		w.evals++
+		if matchAny(seqs, &r) < 0 {
+			fails = true
+		}
+		if first == nil {
+			rr := r
+			first = &rr
+		} else if !varies && !sameObs(first, &r) {
+			varies = true
+		}
+	}
+	return varies, fails
+}
 
 // classify names every kind of discrepancy between the expected sequence and
 // the observation:
@@ -890,13 +992,17 @@ func (w *worker) runCase(d *document, targets []gens.JPExpr, alts [][][]string, 
 	for i, t := range targets {
 		xs[i] = t.Build()
 	}
-	reps := 1
-	if d.js.multiKey && hasFilter(targets) {
-		reps = 3 // the implementation walks a Go map when it evaluates a filter
+	capable := orderCapable(d.js, targets)
+	var byKind map[string][]failing
+	fail := func(kind string, f failing) {
+		if byKind == nil {
+			byKind = map[string][]failing{}
+		}
+		byKind[kind] = append(byKind[kind], f)
 	}
-	byKind := map[string][]failing{}
-	ran := map[string]bool{}
-	for rep := 0; rep < reps; rep++ {
+	var lists [][]execItem
+	nexec := 0
+	{
 		for _, form := range []string{"json", "sen"} {
 			di := d.info(form)
 			seqs := make([][]*nodeInfo, len(seqPos))
@@ -905,39 +1011,53 @@ func (w *worker) runCase(d *document, targets []gens.JPExpr, alts [][][]string, 
 			}
 			var first *result
 			var firstEx execSpec
+			firstAlt := -1
 			list := di.execList(level)
 			escalated := false
 			for i := 0; i < len(list); i++ {
-				ex := list[i]
-				r := runExec(ex, di.text, ex.chunks(len(di.text)), xs)
+				ex := &list[i]
+				r := runExecData(ex.execSpec, di.text, di.data, ex.cks, xs)
 				w.evals++
+				nexec++
 				if r.rdBad {
-					c.HarnessError("chunk reader misuse on %q %v", di.text, ex)
+					c.HarnessError("chunk reader misuse on %q %v", di.text, ex.execSpec)
 				}
-				ran[ex.label()] = true
-				if matchAny(seqs, &r) < 0 {
+				alt := matchAny(seqs, &r)
+				if alt < 0 {
 					for _, k := range classify(di, seqs[0], &r) {
-						byKind[k] = append(byKind[k], failing{ex, form})
+						fail(k, failing{ex.execSpec, form})
 					}
 					if level == 0 && !escalated { // learn which entries are affected
 						escalated = true
 						list = di.execList(1)
 					}
 				}
+				if capable {
+					continue // no chunking comparison: differences may come from map order
+				}
 				if first == nil {
 					rr := r
-					first, firstEx = &rr, ex
-				} else if !sameObs(first, &r) && w.reproducible(firstEx, di, xs, first) && w.reproducible(ex, di, xs, &r) {
-					byKind[chunkDependent] = append(byKind[chunkDependent], failing{ex, form})
+					first, firstEx, firstAlt = &rr, ex.execSpec, alt
+				} else if (alt < 0 || alt != firstAlt) && !sameObs(first, &r) &&
+					w.reproducible(firstEx, di, xs, first) && w.reproducible(ex.execSpec, di, xs, &r) {
+					fail(chunkDependent, failing{ex.execSpec, form})
+				}
+			}
+			lists = append(lists, list)
+			if capable && level == 0 && byKind == nil {
+				// only two executions so far: a few more (every execution is an
+				// independent draw of the map iteration order)
+				if _, fails := w.repeated(di, xs, seqs, ofRepsCheap); fails {
+					fail(objectFilter, failing{list[0].execSpec, form})
 				}
 			}
 		}
 	}
 	if sample && nontrivial {
 		c.Sample(map[string]any{"targets": targetsText(targets), "json": d.js.text, "sen": d.sn.text,
-			"expected": showExp([][]*nodeInfo{d.js.nodes(seqPos[0])}), "executions": len(ran)})
+			"expected": showExp([][]*nodeInfo{d.js.nodes(seqPos[0])}), "executions": nexec})
 	}
-	if len(byKind) == 0 {
+	if byKind == nil {
 		return
 	}
 	c.Add("failing_cases", 1)
@@ -946,57 +1066,100 @@ func (w *worker) runCase(d *document, targets []gens.JPExpr, alts [][][]string, 
 		kinds = append(kinds, k)
 	}
 	sort.Strings(kinds)
+	f0 := byKind[kinds[0]][0]
+	if len(targets) > 1 && w.explainedBySingles(d, targets, f0) {
+		c.Add("pair_failures_explained_by_a_failing_single_target", 1)
+		return
+	}
+	if len(targets) == 1 && w.explainedByPrefix(d, targets[0], f0) {
+		c.Add("failures_explained_by_a_failing_prefix_of_the_target", 1)
+		return
+	}
+	if capable {
+		// Do identical executions disagree (Go map order)? Then the case gets
+		// one kind, whatever the symptoms of the individual executions.
+		for _, form := range []string{"json", "sen"} {
+			di := d.info(form)
+			seqs := make([][]*nodeInfo, len(seqPos))
+			for i, s := range seqPos {
+				seqs[i] = di.nodes(s)
+			}
+			if varies, _ := w.repeated(di, xs, seqs, ofReps); varies {
+				byKind = map[string][]failing{objectFilter: {{di.execList(0)[0].execSpec, form}}}
+				kinds = []string{objectFilter}
+				break
+			}
+		}
+	}
+	ran := map[string]bool{}
+	for _, l := range lists {
+		for i := range l {
+			ran[l[i].lab] = true
+		}
+	}
 	for _, kind := range kinds {
 		fl := byKind[kind]
-		if len(targets) > 1 && w.explainedBySingles(d, targets, fl[0]) {
-			c.Add("pair_failures_explained_by_a_failing_single_target", 1)
-			continue
-		}
 		st := w.minimise(state{targets: targets, ord: d.ord, ex: fl[0].ex}, kind)
-		w.report(st, kind, summarise(fl, ran))
+		entries := summarise(fl, ran)
+		if kind != objectFilter {
+			// a case whose executions vary with the map order may have slipped
+			// through the repetitions above: look again at the smallest form
+			if di := w.docFor(st.ex.form(), st.ord); di != nil && orderCapable(di, st.targets) {
+				if ks := w.kindsOf(st, di); len(ks) == 1 && ks[0] == objectFilter {
+					kind = objectFilter
+				}
+			}
+		}
+		if capable || kind == objectFilter {
+			entries = "*" // which executions fail may depend on the map order (the handler is shared by all)
+		}
+		w.report(st, kind, entries)
 	}
 }
 
 // summarise names the failing entry points in absolute terms: "*" = every
-// execution of the case, "oj.*" / "sen.*" = every execution of that package
-// and none of the other, else the labels.
+// execution of the case; otherwise per package "oj.*" / "sen.*" (every
+// execution of the package), "oj.MatchLoad" (only reader executions, i.e.
+// chunking matters) or "oj.some".
 func summarise(fl []failing, ran map[string]bool) string {
 	failed := map[string]bool{}
 	for _, f := range fl {
 		failed[f.ex.label()] = true
 	}
-	all, allOJ, allSEN, anyOJ, anySEN := true, true, true, false, false
-	for l := range ran {
-		isSen := strings.HasPrefix(l, "sen.")
-		if failed[l] {
-			if isSen {
-				anySEN = true
-			} else {
-				anyOJ = true
+	var parts []string
+	every := true
+	for _, pkg := range []string{"oj.", "sen."} {
+		all, none, loadOnly := true, true, true
+		for l := range ran {
+			if !strings.HasPrefix(l, pkg) {
+				continue
 			}
-			continue
+			if failed[l] {
+				none = false
+				if !strings.Contains(l, "MatchLoad") {
+					loadOnly = false
+				}
+			} else {
+				all = false
+			}
 		}
-		all = false
-		if isSen {
-			allSEN = false
-		} else {
-			allOJ = false
+		if !all {
+			every = false
+		}
+		switch {
+		case none:
+		case all:
+			parts = append(parts, pkg+"*")
+		case loadOnly:
+			parts = append(parts, pkg+"MatchLoad")
+		default:
+			parts = append(parts, pkg+"some")
 		}
 	}
-	switch {
-	case all:
+	if every {
 		return "*"
-	case allOJ && !anySEN:
-		return "oj.*"
-	case allSEN && !anyOJ:
-		return "sen.*"
 	}
-	ls := make([]string, 0, len(failed))
-	for l := range failed {
-		ls = append(ls, l)
-	}
-	sort.Strings(ls)
-	return strings.Join(ls, "+")
+	return strings.Join(parts, "+")
 }
 
 // explainedBySingles: a failure of a target pair is only reported when each
@@ -1004,13 +1167,30 @@ func summarise(fl []failing, ran map[string]bool) string {
 // the single-target case already reports the defect.
 func (w *worker) explainedBySingles(d *document, targets []gens.JPExpr, f failing) bool {
 	for _, t := range targets {
-		key := f.ex.label() + "|" + strconv.Itoa(f.ex.K) + "|" + targetKey(t)
-		bad, ok := w.singleFail[key]
-		if !ok {
-			bad = len(w.kindsOf(state{targets: []gens.JPExpr{t}, ord: d.ord, ex: f.ex}, d.info(f.form))) > 0
-			w.singleFail[key] = bad
+		if w.singleFails(d, t, f) || w.explainedByPrefix(d, t, f) {
+			return true
 		}
-		if bad {
+	}
+	return false
+}
+
+func (w *worker) singleFails(d *document, t gens.JPExpr, f failing) bool {
+	key := f.ex.label() + "|" + strconv.Itoa(f.ex.K) + "|" + targetKey(t)
+	bad, ok := w.singleFail[key]
+	if !ok {
+		bad = len(w.kindsOf(state{targets: []gens.JPExpr{t}, ord: d.ord, ex: f.ex}, d.info(f.form))) > 0
+		w.singleFail[key] = bad
+	}
+	return bad
+}
+
+// explainedByPrefix: a failure of a target is attributed to its shortest
+// failing prefix: when the target cut after one of its leading fragments
+// already fails on the same document and execution, that shorter target's own
+// case reports the defect.
+func (w *worker) explainedByPrefix(d *document, t gens.JPExpr, f failing) bool {
+	for n := 2; n < len(t); n++ { // t[0] is the root
+		if w.singleFails(d, t[:n:n], f) {
 			return true
 		}
 	}
@@ -1023,6 +1203,17 @@ func (w *worker) report(st state, kind, entries string) {
 		return
 	}
 	sig := core.Sig(entries, targetsKind(st.targets), st.ord.shape(), kind)
+	if kind == objectFilter {
+		// shrinking under "identical executions disagree" is weak: the signature
+		// only keeps whether a $-rooted script is involved
+		label := "filter"
+		for _, t := range st.targets {
+			if targetKind(t) == "filter-root" {
+				label = "filter-root"
+			}
+		}
+		sig = core.Sig("*", label, "-", kind)
+	}
 	nfr := 0
 	for _, t := range st.targets {
 		nfr += len(t)
@@ -1046,11 +1237,24 @@ func (w *worker) describe(st state, di *docInfo, kind string) (string, string) {
 	if kind == chunkDependent {
 		var parts []string
 		for _, ex := range di.execList(2) {
-			r := runExec(ex, di.text, ex.chunks(len(di.text)), xs)
+			r := runExecData(ex.execSpec, di.text, di.data, ex.cks, xs)
 			w.evals++
-			parts = append(parts, ex.label()+":"+showObs(&r))
+			parts = append(parts, ex.lab+":"+showObs(&r))
 		}
 		return "the same callbacks for every chunking: " + showExp(seqs), strings.Join(dedupe(parts), "; ")
+	}
+	if kind == objectFilter || orderCapable(di, st.targets) {
+		var parts []string
+		ex := di.execList(0)[0]
+		for i := 0; i < ofRepsShrink; i++ {
+			r := runExecData(ex.execSpec, di.text, di.data, ex.cks, xs)
+			w.evals++
+			parts = append(parts, showObs(&r))
+		}
+		parts = dedupe(parts)
+		sort.Strings(parts)
+		return showExp(seqs), "over repeated executions: " + strings.Join(parts, " / ") + "  targets " +
+			strings.Join(targetsText(st.targets), " ") + " on " + di.text + " via " + ex.lab
 	}
 	r := runExec(st.ex, di.text, st.ex.chunks(len(di.text)), xs)
 	w.evals++
@@ -1071,34 +1275,74 @@ func dedupe(in []string) []string {
 
 // ------------------------------------------------------------------ run
 
-func run(c *core.Ctx) {
-	w := &worker{c: c, a: gens.Paths(false), memo: map[string]state{}, docMemo: map[string]*docInfo{}}
-	defer func() { c.Add("evaluations", w.evals) }()
-	thorough := !c.Quick()
-	specs := buildDocs(c.Pick(3, 4))
-	singles := singleTargets(w.a, thorough)
-	pts := pairTargets(w.a, thorough)
-	ptExpr := make([]gens.JPExpr, len(pts))
-	for i, p := range pts {
-		ptExpr[i] = w.a.Expr(p)
+// plan is the case space of a tier (shared by run and bound).
+type plan struct {
+	a        *gens.PathAlphabet
+	docs     []docSpec
+	small    []bool  // document belongs to gens.PathData(3)
+	singles  [][]int // <= 2 fragments, full alphabet: every entry and chunking
+	threes   [][]int // thorough: 3 fragments with a descent or a trailing filter, full alphabet: []byte entries only
+	thin3    [][]int // thorough: the same over the thinned alphabet: every entry, chunkings whole and 1-byte
+	pairsBig [][]int // pair targets used on the small documents
+	pairsSml [][]int // pair targets used on the other documents (thorough)
+}
+
+func newPlan(thorough bool) *plan {
+	p := &plan{a: gens.Paths(false)}
+	n := 3
+	if thorough {
+		n = 4
 	}
-	item := 0
-	for di, ds := range specs {
-		d, err := w.makeDocument(ds)
-		if err != nil {
-			c.HarnessError("document %d: %v", di, err)
-			continue
+	p.docs = buildDocs(n)
+	small := map[string]bool{}
+	for _, ds := range buildDocs(3) {
+		small[fromTree(ds.tree, ds.rev).text("json")] = true
+	}
+	for _, ds := range p.docs {
+		p.small = append(p.small, small[fromTree(ds.tree, ds.rev).text("json")])
+	}
+	all := singleTargets(p.a, thorough, nil)
+	for _, idx := range all {
+		if len(idx) <= 2 {
+			p.singles = append(p.singles, idx)
+		} else {
+			p.threes = append(p.threes, idx)
 		}
-		w.singleFail = map[string]bool{}
-		c.Add("documents", 1)
-		// single targets
-		for ti, idx := range singles {
+	}
+	p.pairsBig = pairTargets(p.a, thorough)
+	if thorough {
+		p.pairsSml = pairTargets(p.a, false)
+		for _, idx := range singleTargets(p.a, true, pairFrags(p.a, true)) {
+			if len(idx) == 3 {
+				p.thin3 = append(p.thin3, idx)
+			}
+		}
+	}
+	return p
+}
+
+func run(c *core.Ctx) {
+	// the implementation allocates a read buffer per call: trade memory for fewer collections
+	defer debug.SetGCPercent(debug.SetGCPercent(400))
+	thorough := !c.Quick()
+	pl := newPlan(thorough)
+	w := &worker{c: c, a: pl.a, memo: map[string]state{}, docMemo: map[string]*docInfo{}}
+	counts := map[string]int64{}
+	defer func() {
+		c.Add("evaluations", w.evals)
+		for k, v := range counts {
+			c.Add(k, v)
+		}
+	}()
+	item := 0
+	single := func(di int, d *document, list [][]int, level func(idx []int) int, what string) bool {
+		for ti, idx := range list {
 			item++
 			if !c.Mine(item) {
 				continue
 			}
-			if ti%256 == 0 && c.Expired("C17 single targets") {
-				return
+			if ti%256 == 0 && c.Expired("C17 "+what) {
+				return false
 			}
 			x := w.a.Expr(idx)
 			alts, open, err := d.js.targetAlts(x)
@@ -1107,18 +1351,42 @@ func run(c *core.Ctx) {
 				continue
 			}
 			if open {
-				c.Add("cases_skipped_filter_verdict_open", 1)
+				counts["cases_skipped_filter_verdict_open"]++
 				continue
 			}
-			level := 2
-			if len(idx) > 2 || (!thorough && len(idx) > 1 && len(d.js.text) > quickSplitLen) {
-				level = 1
+			counts[what+"_cases"]++
+			c.Case(func() string { return fmt.Sprintf("%s %v on %s", what, targetText(x), d.js.text) })
+			w.runCase(d, []gens.JPExpr{x}, [][][]string{alts}, level(idx), (di*7919+ti)%4999 == 0)
+		}
+		return true
+	}
+	for di, ds := range pl.docs {
+		d, err := w.makeDocument(ds)
+		if err != nil {
+			c.HarnessError("document %d: %v", di, err)
+			continue
+		}
+		w.singleFail = map[string]bool{}
+		if c.Shard == 0 {
+			counts["documents"]++ // every shard walks every document: count them once
+		}
+		ok := single(di, d, pl.singles, func(idx []int) int {
+			if !thorough && len(idx) > 1 && len(d.js.text) > quickSplitLen {
+				return 1
 			}
-			c.Add("single_target_cases", 1)
-			c.Case(func() string { return fmt.Sprintf("single %v on %s", targetText(x), d.js.text) })
-			w.runCase(d, []gens.JPExpr{x}, [][][]string{alts}, level, (di*7919+ti)%4999 == 0)
+			return 2
+		}, "single_target")
+		ok = ok && single(di, d, pl.threes, func([]int) int { return 0 }, "single_target_3_fragments")
+		ok = ok && single(di, d, pl.thin3, func([]int) int { return 1 }, "single_target_3_fragments_thinned_alphabet")
+		if !ok {
+			return
 		}
 		// ordered target pairs
+		pts := pl.pairsBig
+		if !pl.small[di] {
+			pts = pl.pairsSml
+		}
+		var ptExpr []gens.JPExpr
 		var pAlts [][][]string
 		var pOpen []bool
 		for ai := range pts {
@@ -1130,11 +1398,13 @@ func run(c *core.Ctx) {
 				return
 			}
 			if pAlts == nil {
+				ptExpr = make([]gens.JPExpr, len(pts))
 				pAlts = make([][][]string, len(pts))
 				pOpen = make([]bool, len(pts))
-				for i, x := range ptExpr {
+				for i, idx := range pts {
+					ptExpr[i] = w.a.Expr(idx)
 					var err error
-					if pAlts[i], pOpen[i], err = d.js.targetAlts(x); err != nil {
+					if pAlts[i], pOpen[i], err = d.js.targetAlts(ptExpr[i]); err != nil {
 						c.HarnessError("%v", err)
 						pOpen[i] = true
 					}
@@ -1148,10 +1418,10 @@ func run(c *core.Ctx) {
 					continue
 				}
 				if pOpen[bi] {
-					c.Add("cases_skipped_filter_verdict_open", 1)
+					counts["cases_skipped_filter_verdict_open"]++
 					continue
 				}
-				c.Add("target_pair_cases", 1)
+				counts["target_pair_cases"]++
 				w.runCase(d, []gens.JPExpr{ptExpr[ai], ptExpr[bi]}, [][][]string{pAlts[ai], pAlts[bi]}, 1, (ai*131+bi)%3001 == 0 && di%5 == 0)
 			}
 		}
@@ -1182,13 +1452,13 @@ func replay(c *core.Ctx, raw json.RawMessage) {
 	if cs.Kind == chunkDependent {
 		var first *result
 		for _, ex := range di.execList(2) {
-			r := runExec(ex, di.text, ex.chunks(len(di.text)), xs)
+			r := runExecData(ex.execSpec, di.text, di.data, ex.cks, xs)
 			c.Eval()
 			if first == nil {
 				rr := r
 				first = &rr
 			} else if !sameObs(first, &r) {
-				c.Fail("replay|"+chunkDependent, cs, size, "the same callbacks for every chunking", ex.label()+": "+showObs(&r)+" but "+showObs(first))
+				c.Fail("replay|"+chunkDependent, cs, size, "the same callbacks for every chunking", ex.lab+": "+showObs(&r)+" but "+showObs(first))
 				return
 			}
 		}
@@ -1198,18 +1468,18 @@ func replay(c *core.Ctx, raw json.RawMessage) {
 	if chunks == nil {
 		chunks = cs.Exec.chunks(len(cs.Doc))
 	}
-	reps := 1
-	if di.multiKey && hasFilter(cs.Targets) {
-		reps = 5
+	if orderCapable(di, cs.Targets) {
+		if varies, fails := w.repeated(di, xs, seqs, ofRepsShrink); varies || fails {
+			c.Fail("replay|"+objectFilter, cs, size, showExp(seqs), "some of the repeated executions report other callbacks")
+		}
+		return
 	}
-	for i := 0; i < reps; i++ {
-		r := runExec(cs.Exec, cs.Doc, chunks, xs)
-		c.Eval()
-		if matchAny(seqs, &r) >= 0 {
-			continue
-		}
-		for _, k := range classify(di, seqs[0], &r) {
-			c.Fail("replay|"+k, cs, size, showExp(seqs), showObs(&r))
-		}
+	r := runExec(cs.Exec, cs.Doc, chunks, xs)
+	c.Eval()
+	if matchAny(seqs, &r) >= 0 {
+		return
+	}
+	for _, k := range classify(di, seqs[0], &r) {
+		c.Fail("replay|"+k, cs, size, showExp(seqs), showObs(&r))
 	}
 }
